@@ -25,7 +25,7 @@ from t10 import targets as T
 ID = "C13"
 LEVEL = "exploration"
 COUNTS = {"quick": 6000, "thorough": 600000}
-RULE = ("one facade call per run: method (38) x attached command set that defines it (spc/sbc/ssc/smc/mmc by device type) x device "
+RULE = ("1-4 facade calls per run on one facade object (re-attached between devices; some calls made only as history on a set that does not define the command): method (38) x attached command set that defines it (spc/sbc/ssc/smc/mmc by device type) x device "
         "{plain recording object, SCSIDevice, ISCSIDevice} x subset of the documented optional keyword arguments x boundary-biased "
         "values x nonce in the device-provided data; enumerated: every method x every defining set x {no optionals, each single "
         "optional, all optionals} on the plain device. Non-trivial = the command reached the device and the call returned; "
@@ -40,7 +40,7 @@ ASSUMPTIONS = [
     "the opcode is compared with the attached command set's own entry (its T10-correctness is C14, not claimed)",
     "whether decoded *values* are right is C04; here cmd.result must equal the class's own unmarshall_datain of the final buffer and differ from that of the untouched buffer",
 ]
-REQUIRED_PROBES = ["plain", "sgio", "iscsi", "decode_after_execute", "all_optionals", "no_optionals"]
+REQUIRED_PROBES = ["plain", "sgio", "iscsi", "decode_after_execute", "all_optionals", "no_optionals", "reattached", "history_call"]
 
 SET_TYPE = {"spc": 3, "sbc": 0, "ssc": 1, "smc": 8, "mmc": 5}
 
@@ -268,13 +268,29 @@ def gen_args(rng, method, subset=None):
     return pos, kw
 
 
-def generate(rng, idx, tier):
-    method = rng.choice(METHODS)
-    sets = sets_of(method)
+def gen_one(rng, method=None, setname=None):
+    method = method or rng.choice(METHODS)
     pos, kw = gen_args(rng, method)
-    return {"property": ID, "config": {"method": method, "set": rng.choice(sets), "device": rng.choice(["plain", "plain", "sgio", "iscsi"]),
-                                       "blocksize": rng.choice([512, 512, 1, 4096]), "nonce": rng.randrange(1 << 32)},
-            "ops": [{"pos": pos, "kw": kw}]}
+    return {"cfg": {"method": method, "set": setname or rng.choice(sets_of(method)), "device": rng.choice(["plain", "plain", "sgio", "iscsi"]),
+                    "blocksize": rng.choice([512, 512, 1, 4096]), "nonce": rng.randrange(1 << 32)},
+            "pos": pos, "kw": kw, "reattach": rng.random() < 0.6}
+
+
+def generate(rng, idx, tier):
+    n = rng.choice([1, 1, 1, 2, 3, 4])
+    ops = []
+    for _ in range(n):
+        if n > 1 and rng.random() < 0.25:
+            # history: a command invoked on a command set that does not define it (expected to fail somehow; not judged)
+            m = rng.choice(METHODS)
+            others = [s_ for s_ in ("spc", "sbc", "ssc", "smc", "mmc") if s_ not in sets_of(m)]
+            if others:
+                op = gen_one(rng, m, rng.choice(others))
+                op["judged"] = False
+                ops.append(op)
+                continue
+        ops.append(gen_one(rng))
+    return {"property": ID, "config": ops[-1]["cfg"], "ops": ops}
 
 
 _ENUM = None
@@ -444,40 +460,96 @@ def decode_kwargs(method, pos, kw):
     return {}
 
 
-def execute(prog):
-    WORLD.reset()
+def _device_for(ctx, device, setname):
+    """one device object per (kind, command set) and run; attached through the facade (re-attach when it changes)"""
     import pyscsi.pyscsi.scsi_enum_command as E
     SCSI, SCSIDevice, ISCSIDevice = worlds.lib()
-    cfg = prog["config"]
+    key = (device, setname)
+    if key not in ctx["devs"]:
+        dev_type = SET_TYPE[setname]
+        lu = ScriptedLU(dev_type)
+        handed = []
+        if device == "plain":
+            dev = PlainDevice(getattr(E, setname), lu, dev_type)
+        elif device == "sgio":
+            path = "/dev/sg_%s" % setname
+            WORLD.plug(path, lu)
+            dev = SCSIDevice(path)
+        else:
+            k = ("10.0.0.1:3260", "iqn.2026-10.verif:%s" % setname, 0)
+            WORLD.iscsi_targets[k] = lu
+            dev = ISCSIDevice("iscsi://%s/%s/0" % (k[0], k[1]), "iqn.2026-10.verif:init")
+        if device != "plain":
+            # tap the public execute() of the device object so the command handed over is known for every transport
+            orig_execute = dev.execute
+
+            def tapped(cmd, *a_, **k_):
+                handed.append({"cmd": cmd, "cdb_obj": cmd.cdb, "data_in_obj": cmd.datain, "data_out_obj": cmd.dataout})
+                return orig_execute(cmd, *a_, **k_)
+            dev.execute = tapped
+        ctx["devs"][key] = (dev, lu, handed)
+    return ctx["devs"][key]
+
+
+def execute(prog):
+    WORLD.reset()
+    ctx = {"devs": {}, "scsi": None, "dev": None}
+    V, summaries, nontrivial = [], [], False
+    for n, op in enumerate(prog["ops"]):
+        cfg = op.get("cfg") or prog["config"]
+        WORLD.ev("call", n=n, method=cfg["method"], set=cfg["set"], device=cfg["device"], judged=op.get("judged", True))
+        v, summ, nt = _one_call(cfg, op, ctx)
+        V += v
+        summaries.append(summ)
+        nontrivial = nontrivial or nt
+    stats = {"events": len(WORLD.events)}
+    for k, val in WORLD.probes.items():
+        stats["probe." + k] = val
+    out, sigs = [], set()
+    for v in V:
+        k = (v["oracle"], v["where"], v["detail"])
+        if k not in sigs:
+            sigs.add(k)
+            out.append(v)
+    return {"digest": WORLD.digest(), "violations": out, "nontrivial": nontrivial, "stats": stats,
+            "summary": summaries[0] if len(summaries) == 1 else summaries, "events_tail": WORLD.events[-4:]}
+
+
+def _one_call(cfg, op, ctx):
+    import pyscsi.pyscsi.scsi_enum_command as E
+    SCSI, SCSIDevice, ISCSIDevice = worlds.lib()
     method, setname, device = cfg["method"], cfg["set"], cfg["device"]
     a = API[method]
-    op = prog["ops"][0]
     pos, kw = copy.deepcopy(op["pos"]), F.real_args(copy.deepcopy(op["kw"]))
     dev_type = SET_TYPE[setname]
-    lu = ScriptedLU(dev_type)
+    dev, lu, handed = _device_for(ctx, device, setname)
+    del handed[:]
     V = []
     where = "%s/%s" % (method, setname)
-    if device == "plain":
-        dev = PlainDevice(getattr(E, setname), lu, dev_type)
-        scsi = SCSI(dev, blocksize=cfg["blocksize"])
-    else:
-        dev = worlds.open_device(device, lu)
-        scsi = SCSI(dev, blocksize=cfg["blocksize"])
+    if ctx["scsi"] is None or (ctx["dev"] is not dev and not op.get("reattach")):
+        ctx["scsi"] = SCSI(dev, blocksize=cfg["blocksize"])
+    elif ctx["dev"] is not dev:
+        ctx["scsi"](dev)
+        WORLD.probe("reattached")
+    ctx["dev"] = dev
+    scsi = ctx["scsi"]
+    scsi.blocksize = cfg["blocksize"]
     WORLD.probe(device)
-    # tap the public execute() of the device object so the command handed over is known for every transport
-    handed = []
-    if device != "plain":
-        orig_execute = dev.execute
-
-        def tapped(cmd, *a_, **k_):
-            handed.append({"cmd": cmd, "cdb_obj": cmd.cdb, "data_in_obj": cmd.datain, "data_out_obj": cmd.dataout})
-            return orig_execute(cmd, *a_, **k_)
-        dev.execute = tapped
+    if op.get("judged", True) is False:
+        # a call made only to create history (e.g. a command this set does not define): any outcome, nothing judged
+        lu.script = lambda cdb, dataout, xfer_in: bytes(xfer_in)
+        args0 = [F.real_args(pos[name]) if name == "data" else pos[name] for name, field, bits in a["pos"]]
+        if method in DATA_ARG:
+            args0.append(F.pattern(1, cfg["blocksize"] * (pos.get("tl", 1) if "tl" in pos else 1)))
+        k0, v0 = worlds.outcome_of(lambda: getattr(scsi, method)(*args0, **kw))
+        lu.script = None
+        del handed[:]
+        WORLD.probe("history_call")
+        return [], {"outcome": "history:%s" % ("ok" if k0 == "ok" else type(v0).__name__)}, False
     if dev.opcodes is not getattr(E, setname):
         # the attach did not select the set this run wants to exercise: that is C16's business, nothing to judge here
         WORLD.probe("attach_selected_other_set")
-        return {"digest": WORLD.digest(), "violations": [], "nontrivial": False, "stats": {"events": len(WORLD.events), "probe.attach_selected_other_set": 1},
-                "summary": {"outcome": "skipped"}, "events_tail": WORLD.events[-2:]}
+        return [], {"outcome": "skipped"}, False
     # positional arguments in documented order
     args = []
     for name, field, bits in a["pos"]:
@@ -497,6 +569,7 @@ def execute(prog):
         return response_for(method, f, cdb, nonce, xfer_in, dev_type)[:max(xfer_in, 0)]
 
     lu.script = script
+    del handed[:]
     mark = len(WORLD.deliveries)
     n_ev = len(WORLD.events)
     kind, val = worlds.outcome_of(lambda: getattr(scsi, method)(*args, **kw))
@@ -510,17 +583,7 @@ def execute(prog):
     summary = {"outcome": "ok" if kind == "ok" else type(val).__name__, "commands": len(dl)}
 
     def done():
-        stats = {"events": len(WORLD.events)}
-        for k, v in WORLD.probes.items():
-            stats["probe." + k] = v
-        out, sigs = [], set()
-        for v in V:
-            k = (v["oracle"], v["where"], v["detail"])
-            if k not in sigs:
-                sigs.add(k)
-                out.append(v)
-        return {"digest": WORLD.digest(), "violations": out, "nontrivial": kind == "ok" and len(dl) == 1, "stats": stats,
-                "summary": summary, "events_tail": WORLD.events[-4:]}
+        return V, summary, (kind == "ok" and len(dl) == 1)
 
     # 1. exactly one command at the seam
     if len(dl) != 1:
@@ -638,17 +701,21 @@ def execute(prog):
 
 
 def simplify(prog):
-    op = prog["ops"][0]
-    for k in sorted(op["kw"]):
-        c = copy.deepcopy(prog)
-        c["ops"][0]["kw"].pop(k)
-        yield c
-    if prog["config"]["device"] != "plain":
-        c = copy.deepcopy(prog)
-        c["config"]["device"] = "plain"
-        yield c
-    for k, v in sorted(op["pos"].items()):
-        if isinstance(v, int) and v > 1:
+    for n, op in enumerate(prog["ops"]):
+        for k in sorted(op["kw"]):
             c = copy.deepcopy(prog)
-            c["ops"][0]["pos"][k] = 1 if k != "lba" else 0
+            c["ops"][n]["kw"].pop(k)
             yield c
+        cfg = op.get("cfg") or prog["config"]
+        if cfg["device"] != "plain":
+            c = copy.deepcopy(prog)
+            if "cfg" in c["ops"][n]:
+                c["ops"][n]["cfg"]["device"] = "plain"
+            else:
+                c["config"]["device"] = "plain"
+            yield c
+        for k, v in sorted(op["pos"].items()):
+            if isinstance(v, int) and v > 1:
+                c = copy.deepcopy(prog)
+                c["ops"][n]["pos"][k] = 1 if k != "lba" else 0
+                yield c
